@@ -15,6 +15,7 @@ int orc_gp_call(int who);		/* call BEFORE the API is entered */
 /* call AFTER the API returned (callback: at callback entry). `what` names the consumer */
 void orc_gp_done(int gp, const char *what);
 /* number of sections that overlapped some grace period wait (non-triviality) */
+void orc_forget_open_sections(void);
 int orc_overlaps(void);
 int orc_ncs(void);
 int orc_ngp(void);
